@@ -737,8 +737,20 @@ class StateNode(Generic[TContext, TEvent]):
             #    is named "v1"/"api" — which is too aggressive for a patch
             #    release. The rest warn, so the latent hazard stays visible.
             if "." in state_key:
-                head = state_key.split(".", 1)[0]
-                if head in raw_states:
+                # A sibling may itself be dotted ("x.y" next to "x.y.z"), so
+                # every proper dotted prefix of the key is a candidate.
+                parts = state_key.split(".")
+                head = next(
+                    (
+                        prefix
+                        for prefix in (
+                            ".".join(parts[:i]) for i in range(1, len(parts))
+                        )
+                        if prefix in raw_states
+                    ),
+                    None,
+                )
+                if head is not None:
                     raise InvalidConfigError(
                         f"State key '{state_key}' in '{self.id}' is "
                         f"ambiguous: its first segment '{head}' is also a "
